@@ -240,6 +240,7 @@ inductive Op
   | complete (sid : Nat)
   | sources (sid : Nat)
   | matrix (sid : Nat)
+  | cwdump (sid : Nat)
 
 def isComplete (s : Session σ) : Bool :=
   if s.codec == 3 then (match s.it with | some it => it.complete | none => false) else s.finished
@@ -416,6 +417,12 @@ def step (IO : SymIO σ) (w : World σ) (op : Op) : World σ × String :=
         if !isDec s then (w, "ok st=FATAL src=")
         else if s.codec != 3 && !s.finished then (w, "ok st=ERROR src=")
         else (w, s!"ok st=OK src={sourcesStr IO s p}")
+  | .cwdump sid =>
+    match w.ses.get sid with
+    | none => bad
+    | some s => match s.cw with
+      | none => bad
+      | some cw => (w, "ok cw=" ++ String.intercalate ";" (cw.map IO.hex))
   | .matrix sid =>
     match w.ses.get sid with
     | none => bad
